@@ -33,20 +33,48 @@ def f32(x: float) -> float:
 
 
 # ------------------------------------------------------------------ hand-packed skeleton
+def variant_of(version: int) -> str:
+    """Which on-disk layout family a header version selects (my own table, not the library's)."""
+    if version == 43:
+        return 'vitamin'
+    if version == 25:
+        return 'chaos'
+    if version == 22:
+        return 'infra'
+    return 'v19' if version <= 19 else 'std'
+
+
+MAGIC = {'vitamin': b'FART'}
+
+
 def skeleton_lumps(version=21, leaf_v=1) -> dict:
     """Raw lumps of a minimal valid map: 1 plane, 1 node, 2 leafs, 1 brush model, empty everything else."""
     lumps = {}
+    var = variant_of(version)
 
     def put(lump, data, ver=0):
         lumps[lump.value] = {'data': data, 'version': ver, 'compressed': False}
     put(L.ENTITIES, b'{\n"classname" "worldspawn"\n"mapversion" "7"\n}\n{\n"classname" "info_player_start"\n"origin" "0 0 16"\n}\n\x00')
     put(L.PLANES, struct.pack('<ffffi', 0.0, 0.0, 1.0, 0.0, 2))
-    put(L.NODES, struct.pack('<iii6hHHh2x', 0, -1, -2, -64, -64, -64, 64, 64, 64, 0, 0, 0))
-    if version <= 19:
+    if var == 'chaos':
+        put(L.NODES, struct.pack('<iii6fIIhxx', 0, -1, -2, -64.0, -64.0, -64.0, 64.0, 64.0, 64.0, 0, 0, 0))
+    elif var == 'vitamin':
+        put(L.NODES, struct.pack('<iii6iHHh2x', 0, -1, -2, -64, -64, -64, 64, 64, 64, 0, 0, 0))
+    else:
+        put(L.NODES, struct.pack('<iii6hHHh2x', 0, -1, -2, -64, -64, -64, 64, 64, 64, 0, 0, 0))
+    if var == 'v19':
         leaf = struct.Struct('<ihh6h4Hh24s2x')
         leafs = leaf.pack(1, -1, 0, -64, -64, -64, 64, 64, 0, 0, 0, 0, 0, -1, bytes(24)) + \
             leaf.pack(0, 0, 1 << 7, -64, -64, 0, 64, 64, 64, 0, 0, 0, 0, -1, bytes(range(24)))
         put(L.LEAFS, leafs, 0)
+    elif var == 'chaos':
+        leaf = struct.Struct('<iii6f4Ii')
+        put(L.LEAFS, leaf.pack(1, -1, 0, -64.0, -64.0, -64.0, 64.0, 64.0, 0.0, 0, 0, 0, 0, -1) +
+            leaf.pack(0, 0, 1 << 17, -64.0, -64.0, 0.0, 64.0, 64.0, 64.0, 0, 0, 0, 0, -1), 2)
+    elif var == 'vitamin':
+        leaf = struct.Struct('<ihh6I4HhBx')
+        put(L.LEAFS, leaf.pack(1, -1, 0, 0, 0, 0, 64, 64, 32, 0, 0, 0, 0, -1, 0) +
+            leaf.pack(0, 0, 1, 0, 0, 32, 64, 64, 64, 0, 0, 0, 0, -1, 2), 1)
     else:
         leaf = struct.Struct('<ihh6h4Hh2x')
         put(L.LEAFS, leaf.pack(1, -1, 0, -64, -64, -64, 64, 64, 0, 0, 0, 0, 0, -1) +
@@ -54,7 +82,7 @@ def skeleton_lumps(version=21, leaf_v=1) -> dict:
     put(L.LEAFMINDISTTOWATER, struct.pack('<HH', 65535, 65535))
     # the conventional dummy edge 0 (never referenced, since -0 == 0) on a (0,0,0) vertex, as compilers emit it
     put(L.VERTEXES, struct.pack('<fff', 0.0, 0.0, 0.0))
-    put(L.EDGES, struct.pack('<HH', 0, 0))
+    put(L.EDGES, struct.pack('<II' if var == 'chaos' else '<HH', 0, 0))
     put(L.MODELS, struct.pack('<9fiii', -64.0, -64.0, -64.0, 64.0, 64.0, 64.0, 0.0, 0.0, 0.0, 0, 0, 0))
     put(L.PHYSCOLLIDE, struct.pack('<iiii', -1, 0, 0, 0))
     # some lumps with no structured view: opaque payloads that must survive byte for byte
@@ -75,7 +103,8 @@ def skeleton_game_lumps(sprp_ver=10) -> list:
 
 
 def make_skeleton(version=21, revision=7, l4d2=False, sprp_ver=10) -> bytes:
-    return C.write_container(version, revision, skeleton_lumps(version), skeleton_game_lumps(sprp_ver), l4d2=l4d2)
+    return C.write_container(version, revision, skeleton_lumps(version), skeleton_game_lumps(sprp_ver), l4d2=l4d2,
+                             magic=MAGIC.get(variant_of(version), b'VBSP'))
 
 
 def repack(blob: bytes, *, compress=(), compress_game=(), l4d2=None) -> bytes:
@@ -315,25 +344,35 @@ def gen_surfedges(r: Rng, verts, n: int):
     return res
 
 
-def gen_primitives(r: Rng, n: int):
-    return [B.Primitive(r.chance(0.5), [r.randrange(0, 60000) for _ in range(r.randrange(0, 6))], [rv(r) for _ in range(r.randrange(0, 4))]) for _ in range(n)]
+def gen_primitives(r: Rng, n: int, wide=False):
+    top = 3000000000 if wide else 60000
+    return [B.Primitive(r.chance(0.5), [r.randrange(0, top) for _ in range(r.randrange(0, 6))], [rv(r) for _ in range(r.randrange(0, 4))]) for _ in range(n)]
 
 
-def gen_face(r: Rng, planes, surfedges, texinfos, prims, orig=None, vitamin=False):
+def gen_face(r: Rng, planes, surfedges, texinfos, prims, orig=None, vitamin=False, wide=False):
     k = r.randrange(0, len(surfedges) + 1)
     ne = r.randrange(0, min(6, len(surfedges) - k) + 1)
+    if vitamin:
+        # VitaminSource stores plane, texinfo, dispinfo, edges, lightmap extents and its own flag byte; nothing else
+        return B.Face(
+            r.pick(planes), False, False, surfedges[k:k + ne], r.pick(texinfos) if texinfos and r.chance(0.95) else None,
+            r.pick([-1, 0, 3]), 0, bytes(4), 0, 0.0,
+            (r.randrange(-100, 100), r.randrange(-100, 100)), (r.randrange(0, 128), r.randrange(0, 128)), None,
+            [], False, 0, None, r.pick([0, 1, 2, 128, 255]),
+        )
     pk = r.randrange(0, len(prims) + 1)
     pn = r.randrange(0, min(3, len(prims) - pk) + 1)
     return B.Face(
         r.pick(planes), r.chance(0.5), r.chance(0.5), surfedges[k:k + ne], r.pick(texinfos) if texinfos and r.chance(0.95) else None,
         r.pick([-1, 0, 3]), r.pick([-1, 0, 2]), bytes([r.randrange(256) for _ in range(4)]), r.pick([-1, 0, 1024, 1 << 20]), rf(r, 'small'),
         (r.randrange(-100, 100), r.randrange(-100, 100)), (r.randrange(0, 128), r.randrange(0, 128)), orig,
-        prims[pk:pk + pn], r.chance(0.5), r.pick([0, 1, 1 << 20]), r.randrange(0, 60000), 0,
+        prims[pk:pk + pn], r.chance(0.5), r.pick([0, 1, 1 << 20]), r.randrange(0, 3000000000 if wide else 60000), 0,
     )
 
 
-def gen_brushes(r: Rng, planes, texinfos, n: int):
-    sides = [B.BrushSide(r.pick(planes), r.pick(texinfos), r.pick([0, 0, 5]), r.chance(0.3), r.pick([0, 0, 2, 0x8000 - 2])) for _ in range(n * 3 + 1)]
+def gen_brushes(r: Rng, planes, texinfos, n: int, vitamin=False):
+    extra = [0, 0, 2, 255, 1] if vitamin else [0, 0, 2, 0x8000 - 2]      # VitaminSource: a separate byte; otherwise the bits above the bevel flag
+    sides = [B.BrushSide(r.pick(planes), r.pick(texinfos), r.pick([0, 0, 5]), r.chance(0.3), r.pick(extra)) for _ in range(n * 3 + 1)]
     res = []
     for _ in range(n):
         k = r.randrange(0, len(sides))
@@ -341,17 +380,25 @@ def gen_brushes(r: Rng, planes, texinfos, n: int):
     return res
 
 
-def gen_tree(r: Rng, planes, faces, brushes, depth: int, old_ambient: bool, area_bits: int):
+def gen_tree(r: Rng, planes, faces, brushes, depth: int, old_ambient: bool, area_bits: int, variant='std'):
     """Returns (nodes, leafs) with consistent cross references; nodes[0] is the root."""
     nodes, leafs = [], []
+    frac = variant == 'chaos' and r.chance(0.5)      # Chaos stores node/leaf bounds as floats
+
+    def bound(leaf_bound=False):
+        if variant == 'vitamin' and leaf_bound:
+            return Vec(*[float(r.randrange(0, 16384)) for _ in range(3)])       # unsigned on disk
+        if frac:
+            return Vec(*[f32(r.randrange(-16384 * 8, 16384 * 8) / 8) for _ in range(3)])
+        return Vec(*[float(r.randrange(-16384, 16384)) for _ in range(3)])
 
     def leaf():
         fk = r.randrange(0, len(faces) + 1)
         bk = r.randrange(0, len(brushes) + 1)
         lf = B.VisLeaf(
-            BrushContents(r.pick([0, 1, 0x20])), r.pick([-1, 0, 1, 2, 5]), r.randrange(0, 1 << (16 - area_bits - 1)),
-            B.VisLeafFlags(r.randrange(0, 1 << min(area_bits, 7))), Vec(*[float(r.randrange(-16384, 16384)) for _ in range(3)]),
-            Vec(*[float(r.randrange(-16384, 16384)) for _ in range(3)]),
+            BrushContents(r.pick([0, 1, 0x20])), r.pick([-1, 0, 1, 2, 5]), r.randrange(0, 1 << ((16 if variant != 'chaos' else 31) - area_bits - 1)) if variant != 'vitamin' else r.randrange(0, 300),
+            B.VisLeafFlags(r.randrange(0, 1 << min(area_bits, 7))), bound(True),
+            bound(True),
             list(faces[fk:fk + r.randrange(0, 4)]) if r.chance(0.7) else ([r.pick(faces)] if faces else []),
             list(brushes[bk:bk + r.randrange(0, 3)]), r.pick([-1, 0, 1]),
             bytes([r.randrange(256) for _ in range(24)]) if old_ambient else bytes(24), r.pick([65535, 0, 100]))
@@ -360,8 +407,7 @@ def gen_tree(r: Rng, planes, faces, brushes, depth: int, old_ambient: bool, area
 
     def node(d):
         fk = r.randrange(0, len(faces) + 1)
-        n = B.VisTree(r.pick(planes), Vec(*[float(r.randrange(-16384, 16384)) for _ in range(3)]),
-                      Vec(*[float(r.randrange(-16384, 16384)) for _ in range(3)]), list(faces[fk:fk + r.randrange(0, 4)]), r.randrange(0, 300))
+        n = B.VisTree(r.pick(planes), bound(), bound(), list(faces[fk:fk + r.randrange(0, 4)]), r.randrange(0, 300))
         nodes.append(n)
         n.child_neg = node(d + 1) if d < depth and r.chance(0.6) else leaf()
         n.child_pos = node(d + 1) if d < depth and r.chance(0.6) else leaf()
@@ -511,15 +557,21 @@ def populate(b: BSP, r: Rng, groups) -> dict:
         verts = gen_vertexes(r, r.randrange(1, 8))
         b.vertexes = verts
         b.surfedges = gen_surfedges(r, verts, r.randrange(0, 12))
-    if 'prims' in groups or 'faces' in groups:
-        b.primitives = gen_primitives(r, r.randrange(0, 4))
-    if 'faces' in groups:
+    variant = variant_of(b.version.value if isinstance(b.version, B.VERSIONS) else int(b.version))
+    notes['variant'] = variant
+    wide = variant == 'chaos'
+    if ('prims' in groups or 'faces' in groups) and not vitamin:
+        b.primitives = gen_primitives(r, r.randrange(0, 4), wide=wide)
+    if 'faces' in groups and vitamin:
+        faces = [gen_face(r, planes, b.surfedges, texinfos, [], vitamin=True) for _ in range(r.randrange(1, 6))]
+        b.faces = faces
+    elif 'faces' in groups:
         origs = [gen_face(r, planes, b.surfedges, texinfos, b.primitives) for _ in range(r.randrange(1, 4))]
         for o in origs:
             o.hammer_id = None
             o.texinfo = None
         b.orig_faces = origs
-        faces = [gen_face(r, planes, b.surfedges, texinfos, b.primitives, orig=r.pick(origs)) for _ in range(r.randrange(1, 6))]
+        faces = [gen_face(r, planes, b.surfedges, texinfos, b.primitives, orig=r.pick(origs), wide=wide) for _ in range(r.randrange(1, 6))]
         for f in faces:
             # the reader copies the split face's texinfo and hammer id onto its original face
             f.orig_face.texinfo = f.texinfo
@@ -541,14 +593,14 @@ def populate(b: BSP, r: Rng, groups) -> dict:
             notes['hdr'] = True
     brushes = []
     if 'brushes' in groups:
-        brushes = gen_brushes(r, planes, texinfos, r.randrange(1, 4))
+        brushes = gen_brushes(r, planes, texinfos, r.randrange(1, 4), vitamin=vitamin)
         b.brushes = brushes
     if 'tree' in groups:
         if 'faces' not in groups:
             faces = list(b.faces)
         if 'brushes' not in groups:
             brushes = list(b.brushes)
-        nodes, leafs = gen_tree(r, planes, faces, brushes, r.randrange(0, 3), old_ambient, area_bits)
+        nodes, leafs = gen_tree(r, planes, faces, brushes, r.randrange(0, 3), old_ambient, area_bits, variant)
         b.nodes = nodes
         b.visleafs = leafs
     if 'water' in groups:
